@@ -7,6 +7,12 @@ HERE = os.path.dirname(os.path.abspath(__file__))
 VERIF = os.path.dirname(HERE)
 sys.path.insert(0, VERIF)
 sys.setrecursionlimit(max(sys.getrecursionlimit(), 3000))
+try:  # debugging aid: `kill -USR1 <pid>` dumps all thread stacks of a check process
+    import faulthandler
+    import signal
+    faulthandler.register(signal.SIGUSR1, all_threads=True)
+except Exception:  # noqa: BLE001
+    pass
 
 
 def main(argv):
